@@ -26,7 +26,7 @@ BOUNDS = {
                                "every subset of parent build tags; parent commits with / without own matching message"},
 }
 BOUNDS["thorough"] = dict(BOUNDS["quick"], **{"(b) histories": BOUNDS["quick"]["(b) histories"].replace("2-4 builds", "2-5 builds").replace("1-4 commits", "1-5 commits")})
-OUTSIDE = ["parent merges other than one fork-merge inside a branch", "more than 2 repositories in part (b)", "pins naming non-existent builds", "commit times outside the cut-off windows (all stub commits within one day)",
+OUTSIDE = ["parent merges other than one fork-merge inside a branch", "more than 3 repositories in part (b) (one parent, one or two components with equal histories)", "pins naming non-existent builds", "commit times outside the cut-off windows (all stub commits within one day)",
            "component with several release branches"]
 STUBS = ["in-memory git repositories (as C06) with a DEPENDS file per parent commit read by a ProjectRepo subclass defined in the harness"]
 ASSUMPTIONS = ["'contains' = pinned build number >= the component build's number (component history is linear with increasing numbers)"]
@@ -124,11 +124,11 @@ PARENT_SHAPES = {
 }
 
 
-def _mk_parent_class():
+def _mk_parent_class(ncomp: int = 1):
     import ak.ghist as G
 
     class ParentRepo(G.ProjectRepo):
-        _COMPONENTS_VERSIONS_LOCATIONS = {"lib": "DEPENDS"}
+        _COMPONENTS_VERSIONS_LOCATIONS = {"lib": "DEPENDS", "lib2": "DEPENDS"} if ncomp == 2 else {"lib": "DEPENDS"}
 
         def read_components_from_file(self, v_file_path, blob):
             d = json.load(blob.data_stream)
@@ -143,39 +143,47 @@ COMPONENT_SHAPES = {
 }
 
 
-def run_component_case(m, cmatch: Set[int], pshape_name: str, pins: Dict[int, int], ptags: Set[int], pmatch: Set[int]) -> None:
+def run_component_case(m, cmatch: Set[int], pshape_name: str, pins: Dict[int, int], ptags: Set[int], pmatch: Set[int], ncomp: int = 1) -> None:
     """component: `m` = number of commits of a linear history, or the name of a component shape; commit i carries build 2000+i;
     pins[c] = component commit pinned by parent commit c; 'contains' = reachability in the component history"""
     import ak.ghist as G
     cshape = COMPONENT_SHAPES[m] if isinstance(m, str) else {i: ([i - 1] if i > 1 else []) for i in range(1, m + 1)}
     top = max(cshape)
     comp = StubRepo("lib", cshape, {c: "BUG-1 fix" for c in cmatch}, {c: f"build_{2000 + c}_release_7_1_success" for c in cshape}, {"master": top})
+    # an optional second component with the same history (its builds get the same internal numbers as those of the first)
+    comp2 = StubRepo("lib2", cshape, {c: "BUG-1 fix" for c in cmatch}, {c: f"build_{2000 + c}_release_7_1_success" for c in cshape}, {"master": top}) if ncomp == 2 else None
     creach = {c: reach(cshape, c) for c in cshape}
     pshape, pheads = PARENT_SHAPES[pshape_name]
-    files = {c: {"DEPENDS": json.dumps({"lib": f"7.1.{2000 + pins[c]}"})} for c in pshape}
+    files = {c: {"DEPENDS": json.dumps({n: f"7.1.{2000 + pins[c]}" for n in (["lib", "lib2"] if ncomp == 2 else ["lib"])})} for c in pshape}
     parent = StubRepo("app", pshape, {c: "BUG-1 app" for c in pmatch}, {c: f"build_{300 + c}_release_1_0_success" for c in ptags}, pheads, files=files)
-    ParentRepo = _mk_parent_class()
-    what = (f"component {m!r} matching {sorted(cmatch)}; parent {pshape_name} pins {pins} tags {sorted(ptags)} own matching {sorted(pmatch)}")
+    ParentRepo = _mk_parent_class(ncomp)
+    what = (f"component {m!r} matching {sorted(cmatch)}; parent {pshape_name} pins {pins} tags {sorted(ptags)} own matching {sorted(pmatch)}" + (" components 2" if ncomp == 2 else ""))
     try:
-        coll = G.ReposCollection({"app": ParentRepo("app", parent, "origin"), "lib": G.ProjectRepo("lib", comp, "origin")})
-        if coll.sorted_repos != ["lib", "app"]:
+        repos = {"app": ParentRepo("app", parent, "origin"), "lib": G.ProjectRepo("lib", comp, "origin")}
+        if ncomp == 2:
+            repos["lib2"] = G.ProjectRepo("lib2", comp2, "origin")
+        coll = G.ReposCollection(repos)
+        if coll.sorted_repos[-1] != "app" or sorted(coll.sorted_repos[:-1]) != sorted(r for r in repos if r != "app"):
             raise Violation(f"component-after-owner :: {what}: sorted_repos == {coll.sorted_repos}")
         data = dict(coll.make_reports_data("BUG-1 "))
     except Violation:
         raise
     except Exception as e:  # noqa
         raise Violation(f"raises :: {what}: {type(e).__name__}: {e}")
-    lib_rg, app_rg = data["lib"], data["app"]
+    app_rg = data["app"]
     # report-related component builds: every component commit is a build; the report-related ones are the matching commits
     # (a merge of two report-related lines is reported as a build as well)
-    lib_builds = {}
-    for rb in lib_rg.branches:
-        for rbuild in rb.get_rbuilds_list():
-            if rbuild.rcommit is not None:
-                lib_builds[rbuild.rcommit.commit.cid] = rbuild
-    extra = set(lib_builds) - set(cmatch)
-    if not set(cmatch) <= set(lib_builds) or any(len(cshape[c]) < 2 for c in extra):
-        raise Violation(f"component-builds :: {what}: report-related component builds at commits {sorted(lib_builds)}, expected {sorted(cmatch)} (+ merges)")
+    all_lib_builds = {}
+    for cname in (["lib", "lib2"] if ncomp == 2 else ["lib"]):
+        lib_builds = {}
+        for rb in data[cname].branches:
+            for rbuild in rb.get_rbuilds_list():
+                if rbuild.rcommit is not None:
+                    lib_builds[rbuild.rcommit.commit.cid] = rbuild
+        extra = set(lib_builds) - set(cmatch)
+        if not set(cmatch) <= set(lib_builds) or any(len(cshape[c]) < 2 for c in extra):
+            raise Violation(f"component-builds :: {what}: report-related builds of {cname} at commits {sorted(lib_builds)}, expected {sorted(cmatch)} (+ merges)")
+        all_lib_builds[cname] = lib_builds
     order = sorted(pheads, key=lambda b: (b == "master", b))
     R = {b: reach(pshape, pheads[b]) for b in order}
     app_by_name = {rb.branch_name: rb for rb in app_rg.branches}
@@ -186,7 +194,8 @@ def run_component_case(m, cmatch: Set[int], pshape_name: str, pins: Dict[int, in
         own_builds = sorted(c for c in R[b] if (c in ptags or c == pheads[b]) and c not in lower)
         path_builds = sorted(c for c in R[b] if (c in ptags or c == pheads[b]))
         anc = {c: reach(pshape, c) - {c} for c in path_builds}          # proper ancestors
-        for cb in sorted(cmatch):
+        for cname, cb in [(cn, x) for cn in all_lib_builds for x in sorted(cmatch)]:
+            lib_builds = all_lib_builds[cname]
             # the first builds of this branch whose pin contains the component build: builds containing it none of whose
             # ancestor builds contains it (exactly one on a linear history; parallel built sub-branches may give several)
             containing = [c for c in path_builds if cb in creach[pins[c]]]
@@ -200,7 +209,7 @@ def run_component_case(m, cmatch: Set[int], pshape_name: str, pins: Dict[int, in
             else:
                 ok = len(got) >= 1 and len(set(got)) == len(got) and set(got) <= set(names)
             if not ok:
-                raise Violation(f"included-at :: {what}: component build 7.1.{2000 + cb} is recorded as included at {got} in parent branch {b}, "
+                raise Violation(f"included-at :: {what}: build 7.1.{2000 + cb} of component {cname} is recorded as included at {got} in parent branch {b}, "
                                 f"expected exactly {names}" + (" (any non-empty subset: parallel first builds)" if len(minimal) > 1 else ""))
         # a parent build whose pin moves across report-related component builds is reported even without own matching commit
         rb = app_by_name.get(b)
@@ -249,7 +258,7 @@ def h_component(m: int, cm: int, shard=None) -> None:
         for pins in _pin_assignments(pshape, m):
             for ptags in itertools.chain.from_iterable(itertools.combinations(ids, k) for k in range(len(ids) + 1)):
                 for pmatch in (set(), {ids[-1]}, {ids[0]}):
-                    run_component_case(m, cmatch, shard["parent"], pins, set(ptags), pmatch)
+                    run_component_case(m, cmatch, shard["parent"], pins, set(ptags), pmatch, shard.get("ncomp", 1))
 
 
 def replay_h_component(record):
@@ -260,7 +269,8 @@ def replay_h_component(record):
     if not m:
         return "cannot parse the failing case"
     try:
-        run_component_case(ast.literal_eval(m.group(1)), set(ast.literal_eval(m.group(2))), m.group(3), ast.literal_eval(m.group(4)), set(ast.literal_eval(m.group(5))), set(ast.literal_eval(m.group(6))))
+        run_component_case(ast.literal_eval(m.group(1)), set(ast.literal_eval(m.group(2))), m.group(3), ast.literal_eval(m.group(4)), set(ast.literal_eval(m.group(5))), set(ast.literal_eval(m.group(6))),
+                           2 if " components 2" in msg else 1)
     except Violation as e:
         return str(e)
     return None
@@ -275,6 +285,8 @@ def jobs(tier: str) -> List[Job]:
     for p in parents:
         js.append(Job(__name__, "h_component", shard={"parent": p, "m": [2, 3] if (not t and p in ("linear4", "release+master2", "pmerge", "pmerge-swapped")) else ([2, 4] if not t else [2, 5])},
                       budget_s=3000 if t else 110, label=f"component:{p}", must_exhaust=not t))
+    for p in (["linear2", "linear3"] if not t else ["linear2", "linear3", "release+master"]):
+        js.append(Job(__name__, "h_component", shard={"parent": p, "m": [2, 3], "ncomp": 2}, budget_s=3000 if t else 110, label=f"two-components:{p}", must_exhaust=not t))
     for comp in COMPONENT_SHAPES:
         for p in (["linear2", "linear3"] if not t else ["linear2", "linear3", "linear4", "release+master"]):
             js.append(Job(__name__, "h_component", shard={"parent": p, "component": comp}, budget_s=3000 if t else 110, label=f"component:{comp}:{p}", must_exhaust=not t))
